@@ -11,4 +11,4 @@ for id in "$@"; do
   echo "$out" | grep -E "^FAIL|^  " | head -${LINES_SHOWN:-6} | cut -c1-260
 done
 cd /repo && git checkout -q -- . && git clean -fdq -e target
-(cd /verif && ./check --build >/dev/null 2>&1)
+[ -n "${NO_REBUILD:-}" ] || (cd /verif && ./check --build >/dev/null 2>&1)
